@@ -64,6 +64,8 @@ def check(repo, res, tier):
                         'worlds: minutes, hours, two custom integers, seconds, an unknown spelling']
     agree = {}
     rounded = set()
+    from ..ceval import package_helpers
+    helpers = package_helpers(repo)       # a unit chain moved into a module-level function is interpreted per world
     for q, tab in TABLE.items():
         f = repo.func(q)
         paths = cached_paths(f)
@@ -73,7 +75,7 @@ def check(repo, res, tier):
         for wname, unit, m in WORLDS + SPELLINGS:
             seen_sites = {}
             for p in paths:
-                env = {'self.timestep_unit': unit}
+                env = {'self.timestep_unit': unit, '__funcs__': helpers}
                 aenv = {}       # local name -> Affine, evaluated where it is assigned (flow-sensitive)
                 lists = {}      # local name -> [Affine per component] for a list of tuples built by a comprehension
                 tuples = {}     # local name -> [Affine per component] for a name bound to one such tuple
